@@ -1247,6 +1247,14 @@ static void union_initializer(Token **rest, Token *tok, Initializer *init) {
     return;
   }
 
+  // A union can be initialized with another union.
+  Node *expr = assign(rest, tok);
+  add_type(expr);
+  if (expr->ty->kind == TY_UNION) {
+    init->expr = expr;
+    return;
+  }
+
   init->mem = skip_unnamed(init->ty->members);
   if (!init->mem)
     error_tok(tok, "union has no named member to initialize");
@@ -1380,7 +1388,7 @@ static Node *create_lvar_init(Initializer *init, Type *ty, InitDesg *desg, Token
     return node;
   }
 
-  if (ty->kind == TY_UNION) {
+  if (ty->kind == TY_UNION && !init->expr) {
     Member *mem = init->mem ? init->mem : ty->members;
     InitDesg desg2 = {desg, 0, mem};
     return create_lvar_init(init->children[mem->idx], mem->ty, &desg2, tok);
